@@ -61,6 +61,20 @@ GLOB = function(n)
 end
 `
 
+// metatable set-ups of op "gmeta" (see execRequire)
+var c20MetaSrc = map[string]string{
+	// strict mode: reading an undeclared global raises
+	"strict": `setmetatable(_G, {__index = function(t, k) error("undeclared global " .. tostring(k), 2) end})`,
+	// decoys: absent globals read through __index look like populated module tables / non-tables
+	"decoy": `local d = {ma = {f1 = 1, decoy = true}, p = {q = {decoy = true}, decoy = true}, q = 7, string = string}
+setmetatable(_G, {__index = function(t, k) return d[k] end})`,
+	// package.seeall style: every module table that exists now inherits from _G; _G itself has decoys for nested names
+	"seeall": `rawset(_G, "q", rawget(_G, "q"))
+for _, n in ipairs({"ma", "p"}) do local m = rawget(_G, n) if type(m) == "table" and getmetatable(m) == nil then setmetatable(m, {__index = _G}) end end
+local l = package.loaded
+for _, n in ipairs({"ma", "p", "p.q"}) do local m = rawget(l, n) if type(m) == "table" and getmetatable(m) == nil then setmetatable(m, {__index = _G}) end end`,
+}
+
 const c20Locals = "local NT,LOG,NEST,TAGPATH,require,pcall,package,error,module=NT,LOG,NEST,TAGPATH,require,pcall,package,error,module\n"
 
 func c20TmpBase() string {
@@ -440,8 +454,14 @@ func execRequire(ops []Op) []string {
 			}
 			emit(a, "")
 		case "gtrue":
-			L.SetGlobal(a[1], lua.LTrue)
+			L.RawSet(L.Get(lua.GlobalsIndex).(*lua.LTable), lua.LString(a[1]), lua.LTrue)
 			emit(a, "")
+		case "gmeta":
+			// metatables on the globals table / on the module tables reachable now: module lookup (luaL_findtable) is
+			// RAW, so none of this may change any outcome — the Model never hears of this op
+			if err := L.DoString(c20Locals + c20MetaSrc[a[1]]); err != nil {
+				panic(err)
+			}
 		case "require":
 			w.log = nil
 			top := L.GetTop()
@@ -638,7 +658,22 @@ func genC20Random(r *Rng, maxLen int) []Op {
 	add := func(args ...string) { ops = append(ops, Op{Args: args}) }
 	have := map[string]bool{}
 	n := r.Range(3, maxLen)
+	meta := ""
+	if r.Chance(45) {
+		meta = Pick(r, []string{"strict", "decoy", "seeall", "seeall"})
+	}
+	metaAt := r.Intn(n)
 	for len(ops) < n {
+		if meta != "" && len(ops) >= metaAt {
+			add("gmeta", meta)
+			if meta != "seeall" || r.Chance(50) { // seeall: again later, for module tables created meanwhile
+				meta = ""
+			} else {
+				metaAt = len(ops) + r.Range(1, 4)
+			}
+			n++
+			continue
+		}
 		x := Pick(r, c20Names)
 		switch c := r.Intn(100); {
 		case c < 16:
@@ -661,6 +696,8 @@ func genC20Random(r *Rng, maxLen int) []Op {
 		case c < 56:
 			if x != "p.q" {
 				add("gtrue", x)
+			} else {
+				add("gtrue", "q")
 			}
 		case c < 59:
 			add(Pick(r, []string{"global", "loaded"}), x)
